@@ -1505,6 +1505,27 @@ fn sol_many_range() -> Option<String> {
     None
 }
 
+/// C13 (F31): the extrapolating evaluation of the time-reflected problem is the reflection of the original one, bit for bit (explicit methods)
+fn extrapolation_reflection() -> Option<String> {
+    struct Fwd; impl IVP for Fwd { fn ode(&self, t: f64, y: &[f64], d: &mut [f64]) { d[0] = -y[0] + t; } }
+    struct Refl; impl IVP for Refl { fn ode(&self, s: f64, z: &[f64], d: &mut [f64]) { d[0] = -(-z[0] + (-s)); } }
+    for m in [Method::RK4, Method::RK23, Method::DOPRI5, Method::DOP853] {
+        let a = match solve_ivp(&Fwd, 0.0, 1.0, &[1.0], Options::builder().method(m.clone()).dense_output(true).build()) { Ok(s) => s, Err(e) => return Some(format!("{:?}: {:?}", m, e)) };
+        let b = match solve_ivp(&Refl, -0.0, -1.0, &[1.0], Options::builder().method(m.clone()).dense_output(true).build()) { Ok(s) => s, Err(e) => return Some(format!("{:?}: {:?}", m, e)) };
+        let (ca, cb) = match (a.continuous_sol.as_ref(), b.continuous_sol.as_ref()) { (Some(x), Some(y)) => (x, y), _ => return Some(format!("{:?}: no dense output", m)) };
+        if a.t.len() < 3 { continue; }
+        for t in [1.05f64, 1.5, -0.05, -0.5] {
+            let (va, vb) = (ca.evaluate_extrapolate(t), cb.evaluate_extrapolate(-t));
+            match (va, vb) {
+                (Some(x), Some(y)) => { let tol = 1e-9 * (1.0 + x[0].abs()); if (x[0] - y[0]).abs() > tol {
+                    return Some(format!("{:?}: y' = -y + t on [0, 1] and its time reflection on [0, -1]: evaluate_extrapolate({}) = {:e} but the reflected run gives {:e} at {}", m, t, x[0], y[0], -t)); } }
+                (x, y) => if x.is_some() != y.is_some() { return Some(format!("{:?}: evaluate_extrapolate({}) answers only one of the run and its reflection", m, t)); }
+            }
+        }
+    }
+    None
+}
+
 /// C18: naccpt is the number of reported intervals when no output filtering is requested (also when steps are rejected early), nstep >= naccpt
 fn naccpt_equals_intervals() -> Option<String> {
     struct Osc; impl IVP for Osc { fn ode(&self, t: f64, _y: &[f64], d: &mut [f64]) { d[0] = 0.01 + 100.0 * (50.0 * t).sin().powi(2); } }
@@ -1546,6 +1567,7 @@ fn main() {
         "default_options_both_directions" => default_options_both_directions(),
         "naccpt_equals_intervals" => naccpt_equals_intervals(),
         "sol_many_range" => sol_many_range(),
+        "extrapolation_reflection" => extrapolation_reflection(),
         "step_count_law" => step_count_law(),
         "bdf_rescaling_accuracy" => bdf_rescaling_accuracy(),
         "time_reflection_stiff" => time_reflection_stiff(),
